@@ -57,6 +57,10 @@ def gamma_logpdf1(x, shape, rate):
     out = np.full(x.shape, -np.inf)
     ok = x > 0
     out[ok] = a[ok] * np.log(r[ok]) + (a[ok] - 1.0) * np.log(x[ok]) - r[ok] * x[ok] - sc.gammaln(a[ok])
+    # closed edge of the support: the documented expression at x = 0 (0^0 = 1): rate for shape 1, diverges below, 0 above
+    e = x == 0
+    out[e & (a == 1.0)] = np.log(r[e & (a == 1.0)])
+    out[e & (a < 1.0)] = np.inf
     return out
 
 def gamma_cdf1(x, shape, rate):
@@ -82,6 +86,10 @@ def beta_logpdf1(x, alpha, beta):
     out = np.full(x.shape, -np.inf)
     ok = (x > 0) & (x < 1)
     out[ok] = (a[ok] - 1.0) * np.log(x[ok]) + (b[ok] - 1.0) * np.log1p(-x[ok]) - sc.betaln(a[ok], b[ok])
+    # edges: the documented expression evaluated there (0^0 = 1)
+    for e, p in ((x == 0, a), (x == 1, b)):
+        out[e & (p == 1.0)] = -sc.betaln(a[e & (p == 1.0)], b[e & (p == 1.0)])
+        out[e & (p < 1.0)] = np.inf
     return out
 
 def beta_cdf1(x, alpha, beta):
